@@ -7,6 +7,7 @@ import (
 	"github.com/cosmos/cosmos-sdk/codec"
 	codectypes "github.com/cosmos/cosmos-sdk/codec/types"
 
+	host "github.com/bianjieai/tibc-go/modules/tibc/core/24-host"
 	"github.com/bianjieai/tibc-go/modules/tibc/core/exported"
 )
 
@@ -70,6 +71,17 @@ func (p Packet) ValidateBasic() error {
 	}
 	if len(p.Data) == 0 {
 		return errorsmod.Wrap(ErrInvalidPacket, "packet data bytes cannot be empty")
+	}
+	// chain names become elements of '/'-separated store paths: a name outside the identifier
+	// alphabet (a '/' in particular) would be read back as a different name
+	if !host.IsValidID(p.SourceChain) {
+		return errorsmod.Wrapf(ErrInvalidPacket, "invalid source chain name %s", p.SourceChain)
+	}
+	if !host.IsValidID(p.DestinationChain) {
+		return errorsmod.Wrapf(ErrInvalidPacket, "invalid destination chain name %s", p.DestinationChain)
+	}
+	if len(p.RelayChain) > 0 && !host.IsValidID(p.RelayChain) {
+		return errorsmod.Wrapf(ErrInvalidPacket, "invalid relay chain name %s", p.RelayChain)
 	}
 	return nil
 }
